@@ -159,7 +159,7 @@ def run(ctx):
     ok = len(paths) == 1 and paths[0].retval == ("call", klass, (SELF,), ())
     ctx.ob("C20.R2", fi, ok, "copy() builds self.__class__(self)", key="copy")
     fi, paths = own_method_paths(ctx, "Container", "__copy__")
-    ok = len(paths) == 1 and paths[0].retval in (("call", ("attr", klass, "copy"), (SELF,), ()), ("call", klass, (SELF,), ()))
+    ok = len(paths) == 1 and paths[0].retval in (("call", ("attr", klass, "copy"), (SELF,), ()), ("call", klass, (SELF,), ()), ("call", ("attr", ("free", "Container"), "copy"), (SELF,), ()))
     ctx.ob("C20.R2", fi, ok, "__copy__ is the unshadowable copy", key="__copy__")
     fi = M.method("Container", "__deepcopy__")
     paths = paths_of(ctx, fi, "Container")
@@ -297,9 +297,32 @@ def run(ctx):
     hp = M.module_assigns[[r for r in M.modules if r.endswith("hex.py")][0]].get("HEXPRINT")
     okp = isinstance(hp, ast.ListComp) and ast.dump(hp.elt) == ast.dump(ast.parse("format(%s, '02X')" % hp.generators[0].target.id, mode="eval").body) if isinstance(hp, ast.ListComp) and isinstance(hp.generators[0].target, ast.Name) else False
     ctx.ob("C20.R4", "HEXPRINT", bool(okp), "HEXPRINT[i] is format(i, '02X'): exactly two upper-case hex digits per byte", key="HEXPRINT", loc="construct/lib/hex.py")
+    # the character column: one character per byte, and never one that str.splitlines() -- which hexundump uses -- treats as a line break
+    # (\n \r \x0b \x0c \x1c-\x1e \x85 ...): the table shows a byte as itself only inside printable ASCII
+    pr = M.module_assigns[[r for r in M.modules if r.endswith("hex.py")][0]].get("PRINTABLE")
+    verdict, why = None, ""
+    if isinstance(pr, ast.ListComp) and len(pr.generators) == 1 and isinstance(pr.elt, ast.IfExp):
+        t_ = pr.elt.test
+        names_ = {n.attr for n in ast.walk(t_) if isinstance(n, ast.Attribute)} | {n.id for n in ast.walk(t_) if isinstance(n, ast.Name)}
+        if isinstance(t_, ast.Compare) and all(isinstance(o, (ast.Lt, ast.LtE)) for o in t_.ops) and len(t_.ops) == 2 and isinstance(t_.left, ast.Constant) and isinstance(t_.comparators[1], ast.Constant) \
+                and isinstance(t_.comparators[0], ast.Name):
+            lo = t_.left.value + (0 if isinstance(t_.ops[0], ast.LtE) else 1)
+            hi = t_.comparators[1].value - (1 if isinstance(t_.ops[1], ast.Lt) else 0)
+            verdict, why = (32 <= lo and hi <= 127), "bytes %d..%d are shown as themselves" % (lo, hi)
+        elif "printable" in names_ and "string" in names_ or "whitespace" in names_:
+            verdict, why = False, "string.printable contains \\t \\n \\r \\x0b \\x0c"
+        elif "isprintable" in names_:
+            verdict, why = True, "str.isprintable() is false for every control character"
+        other = pr.elt.orelse
+        if verdict and not (isinstance(other, ast.Constant) and isinstance(other.value, str) and len(other.value) == 1 and other.value.isprintable()):
+            verdict, why = False, "the placeholder for other bytes is not one printable character"
+    if verdict is None:
+        ctx.error("C20.R4 undecided: PRINTABLE is not a comprehension of the form `<char of i> if <test on i> else '.'` the rule knows")
+    else:
+        ctx.ob("C20.R4", "PRINTABLE", verdict, "PRINTABLE shows a byte as itself only inside printable ASCII, so no dump line contains a line-break character (%s)" % why, key="PRINTABLE", loc="construct/lib/hex.py")
     toks = [x for p in pu for e in p.events for v in e.a.values() if isinstance(v, tuple) for x in N.walk(v) if x[0] == "call" and x[1] == ("free", "int")]
     ctx.ob("C20.R4", fu, bool(toks) and all(len(x[2]) == 2 and x[2][1] == N.const(16) for x in toks), "hexundump reads every token as a base-16 number", key="reader base")
-    ctx.floor("C20.R4", 7)
+    ctx.floor("C20.R4", 8)
 
     # ---------------------------------------------------------------- R5
     lc = M.cls("ListContainer")
